@@ -218,7 +218,7 @@ fn main_check(ctx: &Ctx) -> Outcome {
     // implementation's bookkeeping could wrap or be capped (2^8, 2^10, 2^12, 2^16, 2^17 and beyond)
     {
         let sizes: Vec<usize> = if quick {
-            vec![255, 256, 257, 1023, 1024, 1025, 4096, 65535, 65536, 65537, 70000]
+            vec![255, 256, 257, 1023, 1024, 1025, 4096, 65535, 65536, 65537, 70000, (1 << 20) + 5]
         } else {
             vec![255, 256, 257, 1023, 1024, 1025, 4095, 4096, 4097, 16384, 65534, 65535, 65536, 65537, 70000, 131071, 131072, 131073, 200000, 1 << 20]
         };
